@@ -56,7 +56,7 @@ ProjectKind(kind, r) ==
 
 \* the core evaluator on a well-formed tree: [r, st]
 Core(mode, tree, st) ==
-  CASE mode = "fresh" -> LET x == Eval(tree, St(NewHashMap, st.log), "mut") IN Res(x.r, st)      \* context discarded
+  CASE mode = "fresh" -> LET x == Eval(tree, St(NewHashMap, st.log), "mut") IN Res(x.r, [st EXCEPT !.unc = x.st.unc])   \* context discarded
     [] mode = "imm" -> Eval(tree, st, "imm")
     [] mode = "mut" -> Eval(tree, st, "mut")
 
